@@ -53,6 +53,20 @@ func akaDerive(a []string) string {
 	return "ok " + hx(res) + " " + hx(ue.Kamf) + " " + hx(ue.KnasEnc[:]) + " " + hx(ue.KnasInt[:])
 }
 
+// akaDeriveAfter: as aka_derive, but a second subscription (other K / OPc / OP) is created between the creation of the UE's
+// subscription and the derivation — the order in which the emulator creates its UE list before it registers the first UE.
+// The first subscription must be unaffected.
+func akaDeriveAfter(a []string) string {
+	ue := tglib.NewRanUeContext(aStr(a[0]), 1, a8(a[1]), a8(a[2]))
+	subs := tglib.GetAuthSubscription(aStr(a[4]), aStr(a[5]), aStr(a[6]))
+	subs.AuthenticationManagementField = aStr(a[3])
+	other := tglib.GetAuthSubscription(aStr(a[12]), aStr(a[13]), aStr(a[14]))
+	_ = other
+	autn := a16(a[7])
+	res := ue.DeriveRESstarAndSetKey(subs, autn, xb(a[8]), aStr(a[9]), aStr(a[10]), aStr(a[11]))
+	return "ok " + hx(res) + " " + hx(ue.Kamf) + " " + hx(ue.KnasEnc[:]) + " " + hx(ue.KnasInt[:])
+}
+
 // akaDeriveChild runs the op in a child process so that fatal.Fatalf's os.Exit(1) can be observed.
 func akaDeriveChild(a []string) string {
 	cmd := exec.Command(os.Args[0], "run")
@@ -218,6 +232,7 @@ func akaSnName(mnc, mcc string) (string, bool) {
 func init() {
 	register("aka", akaDomain)
 	registerOp("aka_derive", akaDerive)
+	registerOp("aka_derive_after", akaDeriveAfter)
 	registerOp("aka_derive_x", func(a []string) string {
 		if os.Getenv("VERIF_CORR_CHILD") != "" {
 			return akaDerive(a)
@@ -355,6 +370,12 @@ func akaDomain(e *emitter) {
 		e.op("aka_derive", base(opcS, "")...)
 		if c%3 == 0 {
 			e.op("aka_derive", base(opcS, e.hexStr(e.bytes(16)))...)
+		}
+		if c%4 == 1 {
+			// another subscriber (other K / OPc / OP) is created before this one authenticates
+			k2, op2 := e.hexStr(e.bytes(16)), e.hexStr(e.bytes(16))
+			e.op("aka_derive_after", append(base("", opS), sx(k2), sx(""), sx(op2))...)
+			e.op("aka_derive_after", append(base(opcS, ""), sx(k2), sx(e.hexStr(e.bytes(16))), sx(""))...)
 		}
 		e.op("aka_kamf", sx(supi), hx(e.bytes(32)), sx(snName), hx(autn[:6]))
 		e.op("aka_algkey", hx(e.bytes(32)), ca, ia)
